@@ -24,10 +24,32 @@ macro_rules! products_case {
     ($fname:ident, $N:expr, $Mat:ident, $Vec:ident, $va:path, $av:path) => {
         fn $fname<S: Dom>(t: &mut Tape, cx: &mut Cx) -> CaseResult {
             const N: usize = $N;
-            let a: [[S; N]; N] = vk::gen_mat(t, 9);
-            let b: [[S; N]; N] = vk::gen_mat(t, 9);
+            let mut a: [[S; N]; N] = vk::gen_mat(t, 9);
+            let mut b: [[S; N]; N] = vk::gen_mat(t, 9);
             let v: [S; N] = vk::gen_vec(t, 9);
             let s: S = S::any(t, 9);
+            // RELATED / STRUCTURED operand pairs, which independent generation never produces: B = A^T, B = A,
+            // a diagonal / scalar / permutation / symmetric / triangular operand on either side, zero
+            let structured = |t: &mut Tape, m: &mut [[S; N]; N], other: &[[S; N]; N]| -> &'static str {
+                match t.below(10) {
+                    0 => { *m = rf::transpose(other); "operand = transpose of the other" }
+                    1 => { *m = *other; "operand = the other operand" }
+                    2 => { for i in 0..N { for j in 0..N { if i != j { m[i][j] = S::zero(); } } } "diagonal operand" }
+                    3 => { let d = m[0][0]; for i in 0..N { for j in 0..N { m[i][j] = if i == j { d } else { S::zero() }; } } "scalar-matrix operand" }
+                    4 => { let k = t.below(N); let old = *m; for i in 0..N { for j in 0..N { m[i][j] = if j == (i + 1 + k) % N { old[i][j].max(S::one()) } else { S::zero() }; } } "generalised permutation operand" }
+                    5 => { for i in 0..N { for j in 0..i { m[i][j] = m[j][i]; } } "symmetric operand" }
+                    6 => { for i in 0..N { for j in 0..i { m[i][j] = S::zero(); } } "upper-triangular operand" }
+                    7 => { *m = [[S::zero(); N]; N]; "zero operand" }
+                    8 => { *m = rf::identity(); "identity operand" }
+                    _ => { let r = t.below(N); for j in 0..N { m[N - 1][j] = if j == r { S::one() } else { S::zero() }; } "operand with a unit-vector last row" }
+                }
+            };
+            match t.below(4) {
+                0 => { let l = structured(t, &mut b, &a); cx.label(l); }
+                1 => { let l = structured(t, &mut a, &b); cx.label(l); }
+                _ => {}
+            }
+            let (a, b) = (a, b);
             let (ra, rb) = (rm::$Mat::<S>::from_arr(&a), rm::$Mat::<S>::from_arr(&b));
             let (ca, cb) = (cm::$Mat::<S>::from_arr(&a), cm::$Mat::<S>::from_arr(&b));
             let vv: $Vec<S> = $va(&v);
